@@ -29,11 +29,13 @@ Definition sname := nat.   (* name of a state slot: "Class.attr" or a module-lev
 (** ** IR *)
 Inductive stmt :=
 | Fresh (x : var)                       (* x := newly allocated value *)
-| Assign (x y : var)                    (* x may become y, a view of y, or anything reachable from y *)
+| Assign (x y : var)                    (* x may become y (or a view of y: same buffer, same cell) *)
+| Load (x y : var)                      (* x may become something directly referenced by y (an element) *)
+| Reach (x y : var)                     (* x may become y or anything reachable from y *)
 | Store (x y : var)                     (* the objects x is bound to may now reference those of y *)
 | Mutate (x : var)                      (* the objects x is bound to are written *)
-| Call (x : var) (f : fname) (args : list var)
-| CallNew (x : var) (f : fname) (args : list var)  (* constructor call: args[0] is the new object *)
+| Call (x x0 : var) (f : fname) (args : list var)     (* x: the result; x0: reserved for its fresh part *)
+| CallNew (x x0 : var) (f : fname) (args : list var)  (* constructor call: args[0] is the new object *)
 | GlobalRng                             (* a draw from numpy's module-level generator / an unseeded one *)
 | Draw (r : var)                        (* a draw from the generator object held by r *)
 | StateRead (g : sname) (r : var)       (* slot g of the object held by r is read *)
@@ -41,26 +43,34 @@ Inductive stmt :=
 
 (** [f_params]: protected roots (the module-constants root first, positional parameters,
     state slots that may hold caller memory).  [f_owned]: unprotected roots (the receiver
-    object and its private state slots).  [f_grng]: the root standing for numpy's global
+    object and its private state slots).  [f_ownref]: slots whose object is the receiver's
+    own (e.g. a list created by the constructor) but may REFERENCE caller memory stored by
+    earlier calls ([f_rsite] stands for those objects).  [f_grng]: the root standing for numpy's global
     generator (what [check_random_state None] returns; passed by the translator for an
     omitted or [None] rng argument).  [f_psite], [f_osite]: the abstract sites that stand
     for all entry cells reachable from the protected / the owned roots ([f_grng] is its own
     site).  [f_formals]: for each argument POSITION of a call, the roots that position
-    stands for (position 0 of a method = receiver + all its slots; the last two positions
-    are the module root and the global generator).  [f_slots]: the PRIVATE slots of the
+    stands for.  Every Python argument occupies two positions: an EXACT one ([f_exact]: the
+    object bound to the argument itself) and one for everything reachable from it (for a
+    receiver: its slots); the last two Python arguments are the module root and the global
+    generator.  [f_slots]: the PRIVATE slots of the
     receiver (slot name, root variable): a write to the content of such a slot is
     reported to callers as an update of that slot ([s_sw]), not as a write through the
     argument ([s_mut]). *)
 Record func := mkFunc {
   f_params : list var;
   f_owned : list var;
+  f_ownref : list var;
   f_grng : var;
   f_psite : site;
   f_osite : site;
+  f_rsite : site;
   f_formals : list (list var);
-  f_slots : list (sname * var);
+  f_exact : list nat;
+  f_slots : list (sname * (var * var));   (* name, content variable, its "reachable from" companion *)
   f_body : list stmt;
-  f_ret : var }.
+  f_ret : var;
+  f_rreach : var }.   (* reserved: its solution is the closure of what the result may reach *)
 
 Record summary := mkSum {
   s_mut : list nat;                (* positions: something reachable from the argument may be written *)
@@ -84,16 +94,18 @@ Fixpoint lookup {A : Type} (k : nat) (l : list (nat * A)) : option A :=
   end.
 
 (** ** Calls are replaced by the effects their summary allows.
-    The translator passes, for every argument, a temporary [t] with [Assign t a] (anything
-    reachable from the argument), so "reachable from position i" is "bound to args[i]". *)
+    The translator passes every argument twice: the argument itself (exact position) and a
+    temporary [t] with [Reach t a] (anything reachable from the argument), so "reachable from
+    position i" is "bound to args[i]". *)
 Definition argn (args : list var) (i : nat) : list var :=
   match nth_error args i with Some a => [a] | None => [] end.
 
-Definition expand_call (new : bool) (sm : summary) (x : var) (args : list var) : list stmt :=
+Definition expand_call (new : bool) (sm : summary) (x x0 : var) (args : list var) : list stmt :=
   let keep := fun gi : sname * nat => negb (new && Nat.eqb (snd gi) 0) in
-  Fresh x
+  (* the result is a fresh object (which may reference arguments) or (part of) an argument *)
+  Fresh x0 :: Assign x x0
   :: flat_map (fun i => map Mutate (argn args i)) (s_mut sm)
-  ++ flat_map (fun i => flat_map (fun a => [Assign x a; Store x a]) (argn args i)) (s_ret sm)
+  ++ flat_map (fun i => flat_map (fun a => [Assign x a; Store x0 a]) (argn args i)) (s_ret sm)
   ++ flat_map (fun ij => flat_map (fun a => map (Store a) (argn args (snd ij)))
                                   (argn args (fst ij))) (s_lnk sm)
   ++ (if s_rng sm then [GlobalRng] else [])
@@ -103,14 +115,14 @@ Definition expand_call (new : bool) (sm : summary) (x : var) (args : list var) :
 
 Definition expand (S : summaries) (st : stmt) : option (list stmt) :=
   match st with
-  | Call x f args =>
+  | Call x x0 f args =>
       match lookup f S with
-      | Some sm => Some (expand_call false sm x args)
+      | Some sm => Some (expand_call false sm x x0 args)
       | None => None                      (* unknown callee: fail closed *)
       end
-  | CallNew x f args =>
+  | CallNew x x0 f args =>
       match lookup f S with
-      | Some sm => Some (expand_call true sm x args)
+      | Some sm => Some (expand_call true sm x x0 args)
       | None => None
       end
   | _ => Some [st]
@@ -134,7 +146,7 @@ Record state := mkSt {
   edges : cell -> cell -> Prop;     (* "contains a reference to" (directed) *)
   alloc : cell -> Prop }.
 
-Definition reach (s : state) : cell -> cell -> Prop := clos_refl_trans cell (edges s).
+Definition reach (s : state) : cell -> cell -> Prop := clos_refl_trans_1n cell (edges s).
 
 (** [below s x c]: c is the value of x or reachable from it *)
 Definition below (s : state) (x : var) (c : cell) : Prop :=
@@ -156,15 +168,27 @@ Inductive step (s : state) : stmt -> option event -> state -> Prop :=
     (forall d, alloc s' d <-> (alloc s d \/ d = c)) ->
     step s (Fresh x) None s'
 | step_assign : forall x y s',
-    (forall c, env s' x c -> env s x c \/ below s y c) ->
+    (forall c, env s' x c -> env s x c \/ env s y c) ->
     (forall z, z <> x -> forall d, env s' z d <-> env s z d) ->
     (forall a b, edges s' a b <-> edges s a b) ->
     (forall d, alloc s' d <-> alloc s d) ->
     step s (Assign x y) None s'
+| step_load : forall x y s',
+    (forall c, env s' x c -> env s x c \/ exists d, env s y d /\ edges s d c) ->
+    (forall z, z <> x -> forall d, env s' z d <-> env s z d) ->
+    (forall a b, edges s' a b <-> edges s a b) ->
+    (forall d, alloc s' d <-> alloc s d) ->
+    step s (Load x y) None s'
+| step_reach : forall x y s',
+    (forall c, env s' x c -> env s x c \/ below s y c) ->
+    (forall z, z <> x -> forall d, env s' z d <-> env s z d) ->
+    (forall a b, edges s' a b <-> edges s a b) ->
+    (forall d, alloc s' d <-> alloc s d) ->
+    step s (Reach x y) None s'
 | step_store : forall x y s',
     (forall z d, env s' z d <-> env s z d) ->
     (forall a b, edges s a b -> edges s' a b) ->
-    (forall a b, edges s' a b -> edges s a b \/ (env s x a /\ below s y b)) ->
+    (forall a b, edges s' a b -> edges s a b \/ (env s x a /\ env s y b)) ->
     (forall d, alloc s' d <-> alloc s d) ->
     step s (Store x y) None s'
 | step_mutate : forall x c, env s x c -> step s (Mutate x) (Some (EWrite c)) s
@@ -183,15 +207,20 @@ Inductive run (P : list stmt) : state -> list event -> state -> Prop :=
 | run_cons : forall s st oe s' tr s'',
     In st P -> step s st oe s' -> run P s' tr s'' -> run P s (ev_list oe ++ tr) s''.
 
-(** Entry condition.  Every allocated cell belongs to exactly one of three regions
+(** Entry condition.  Every allocated cell belongs to exactly one of four regions
     ([kind]: 0 = the caller's memory: arguments and module constants, 1 = the receiver's
-    private state, 2 = numpy's global generator); only roots are bound, each to cells of
-    its own region; no reference crosses a region boundary. *)
-Definition entry_ok (params owned : list var) (g : var) (kind : cell -> nat) (s0 : state) : Prop :=
+    private state, 2 = numpy's global generator, 3 = containers owned by the receiver that
+    may reference caller memory); only roots are bound, each to cells of its own region;
+    no reference crosses a region boundary except from region 3 into region 0. *)
+Definition entry_ok (params owned ownref : list var) (g : var) (kind : cell -> nat) (s0 : state) : Prop :=
   (forall x c, env s0 x c -> alloc s0 c) /\
-  (forall a b, edges s0 a b -> alloc s0 a /\ alloc s0 b /\ kind a = kind b) /\
-  (forall x c, env s0 x c ->
-     (In x params /\ kind c = 0) \/ (In x owned /\ kind c = 1) \/ (x = g /\ kind c = 2)).
+  (forall a b, edges s0 a b -> alloc s0 a /\ alloc s0 b /\
+                              (kind a = kind b \/ (kind a = 3 /\ kind b = 0))) /\
+  (forall x c, env s0 x c -> In x params \/ In x owned \/ x = g \/ In x ownref) /\
+  (forall x c, env s0 x c -> In x params -> kind c = 0) /\
+  (forall x c, env s0 x c -> In x owned -> kind c = 1) /\
+  (forall c, env s0 g c -> kind c = 2) /\
+  (forall x c, env s0 x c -> In x ownref -> kind c = 3).
 
 (** cells reachable from one of the roots [R] at entry *)
 Definition protected (R : list var) (s0 : state) (c : cell) : Prop :=
@@ -215,8 +244,7 @@ Definition pmap := PositiveMap.t (list positive).
 Definition get (m : pmap) (k : positive) : list positive :=
   match PositiveMap.find k m with Some l => l | None => [] end.
 
-(** [h_pt x]: sites x may be bound to; [h_cont o]: sites reachable from an object of site o
-    (transitively closed, checked) *)
+(** [h_pt x]: sites x may be bound to; [h_cont o]: sites an object of site o may directly reference *)
 Record hints := mkHints { h_pt : pmap; h_cont : pmap }.
 
 Definition pt (h : hints) (x : var) : list site := get (h_pt h) x.
@@ -225,27 +253,28 @@ Definition cont (h : hints) (o : site) : list site := get (h_cont h) o.
 Definition of_list (l : list (positive * list positive)) : pmap :=
   fold_left (fun m kv => PositiveMap.add (fst kv) (snd kv) m) l (PositiveMap.empty _).
 
+(** [l] is closed under "may reference" *)
+Definition reach_closed (h : hints) (l : list site) : bool :=
+  forallb (fun o => inclb (cont h o) l) l.
+
 Definition valid_stmt (h : hints) (st : stmt) : bool :=
   match st with
   | Fresh x => memp x (pt h x)
-  | Assign x y => forallb (fun o => memp o (pt h x) && inclb (cont h o) (pt h x)) (pt h y)
+  | Assign x y => inclb (pt h y) (pt h x)
+  | Load x y => forallb (fun o => inclb (cont h o) (pt h x)) (pt h y)
+  | Reach x y => inclb (pt h y) (pt h x) && reach_closed h (pt h x)
   | Store x y => forallb (fun o => inclb (pt h y) (cont h o)) (pt h x)
   | _ => true
   end.
 
-Definition valid_cont (h : hints) : bool :=
-  forallb (fun kv => forallb (fun o' => inclb (cont h o') (snd kv)) (snd kv))
-          (PositiveMap.elements (h_cont h)).
-
-Definition valid_hints (h : hints) (P : list stmt) : bool :=
-  valid_cont h && forallb (valid_stmt h) P.
+Definition valid_hints (h : hints) (P : list stmt) : bool := forallb (valid_stmt h) P.
 
 (** ** The checker *)
 Definition stmt_ok (wl rd : list sname) (allow_g : bool) (h : hints) (ps gs : site) (st : stmt) : bool :=
   match st with
-  | Fresh _ | Assign _ _ | Store _ _ => true
+  | Fresh _ | Assign _ _ | Load _ _ | Reach _ _ | Store _ _ => true
   | Mutate x => negb (memp ps (pt h x))
-  | Call _ _ _ | CallNew _ _ _ => false
+  | Call _ _ _ _ | CallNew _ _ _ _ => false
   | GlobalRng => false
   | Draw r => allow_g || negb (memp gs (pt h r))
   | StateWrite g r => memn g wl || negb (memp ps (pt h r))
@@ -262,20 +291,27 @@ Definition check_fun (wl rd : list sname) (allow_g : bool) (S : summaries) (h : 
   match prims S (f_body f) with
   | None => false
   | Some P =>
-      let ps := f_psite f in let os := f_osite f in let gs := f_grng f in
+      let ps := f_psite f in let os := f_osite f in let gs := f_grng f in let rs := f_rsite f in
       valid_hints h P
       && forallb (fun p => memp ps (pt h p)) (f_params f)
       && forallb (fun o => memp os (pt h o)) (f_owned f)
+      && forallb (fun o => memp rs (pt h o)) (f_ownref f)
       && memp gs (pt h gs)
       && memp ps (cont h ps) && memp os (cont h os) && memp gs (cont h gs)
-      (* the receiver's private state never comes to hold or reference caller memory *)
-      && forallb (fun o => negb (memp ps (pt h o))
-                           && forallb (fun t => negb (memp ps (cont h t))) (pt h o)) (f_owned f)
+      && memp rs (cont h rs) && memp ps (cont h rs)
+      (* class invariant: the receiver's private state never comes to hold or (transitively)
+         reference caller memory; its own containers never become the caller's objects.
+         [pt h os]'s closure is given by the solution of the reserved variable [os] *)
+      && forallb (fun o => inclb (pt h o) (pt h os)) (f_owned f)
+      && reach_closed h (pt h os)
+      && negb (memp ps (pt h os))
+      && forallb (fun o => negb (memp ps (pt h o))) (f_ownref f)
       && forallb (stmt_ok wl rd allow_g h ps gs) P
   end.
 
 (** every generator drawn from may come from the caller (a parameter or the receiver) and
-    is never the global generator; no unseeded draw *)
+    is never the global generator; no unseeded draw; the result does not carry the global
+    generator away (an [rng] argument that is not passed on to a constructed object) *)
 Definition seed_plumbed (S : summaries) (h : hints) (f : func) : bool :=
   match prims S (f_body f) with
   | None => false
@@ -285,6 +321,9 @@ Definition seed_plumbed (S : summaries) (h : hints) (f : func) : bool :=
                                      && (memp (f_psite f) (pt h r) || memp (f_osite f) (pt h r))
                          | GlobalRng => false
                          | _ => true end) P
+      && inclb (pt h (f_ret f)) (pt h (f_rreach f))
+      && reach_closed h (pt h (f_rreach f))
+      && negb (memp (f_grng f) (pt h (f_rreach f)))
   end.
 
 Definition draws (S : summaries) (f : func) : bool :=
@@ -295,30 +334,47 @@ Definition draws (S : summaries) (f : func) : bool :=
 
 (** ** Validation of a summary against the body.
     [h]: a points-to solution of the same statement set in which every root is its own
-    site.  [rs i]: the sites that stand for "reachable from position i". *)
+    site.  [q]: for every quantity "reachable from ..." a list of sites that contains the
+    roots and is closed under "may reference" (checked): [q_pos i]: from position i;
+    [q_posp i]: from position i without the receiver's private slots; [q_slot k]: from the
+    k-th private slot; [q_ret]: from the result. *)
 Definition positions {A : Type} (l : list A) : list nat := seq 0 (length l).
 
 Definition meets (a b : list positive) : bool := existsb (fun x => memp x b) a.
 
-Definition summary_ok (S : summaries) (h : hints) (f : func) (sm : summary) : bool :=
+Record reachsets := mkReach {
+  q_pos : list (list site);
+  q_posp : list (list site);
+  q_slot : list (list site);
+  q_ret : list site }.
+
+Definition covers (exact : bool) (h : hints) (roots : list var) (l : list site) : bool :=
+  forallb (fun r => inclb (pt h r) l) roots && (exact || reach_closed h l).
+
+Definition summary_ok (S : summaries) (h : hints) (q : reachsets) (f : func) (sm : summary) : bool :=
   match prims S (f_body f) with
   | None => false
   | Some P =>
-      let priv := map snd (f_slots f) in
-      let closure := fun roots => roots ++ flat_map (cont h) roots in
-      let rs := fun i => closure (nth i (f_formals f) []) in
-      let rsp := fun i => closure (filter (fun v => negb (memp v priv)) (nth i (f_formals f) [])) in
+      let priv := flat_map (fun gv => [fst (snd gv); snd (snd gv)]) (f_slots f) in
       let pos := positions (f_formals f) in
-      let ret_reach := closure (pt h (f_ret f)) in
+      let rs := fun i => nth i (q_pos q) [] in
+      let rsp := fun i => nth i (q_posp q) [] in
+      let rslot := fun k => nth k (q_slot q) [] in
       valid_hints h P
-      && forallb (fun r => memp r (pt h r) && memp r (cont h r)) (concat (f_formals f))
+      && forallb (fun r => memp r (pt h r)) (concat (f_formals f))
+      && forallb (fun i => covers (memn i (f_exact f)) h (nth i (f_formals f) []) (rs i)) pos
+      && forallb (fun i => covers (memn i (f_exact f)) h
+                                  (filter (fun v => negb (memp v priv)) (nth i (f_formals f) [])) (rsp i)) pos
+      && forallb (fun k => covers false h [fst (snd (nth k (f_slots f) (0, (xH, xH))))] (rslot k)) (positions (f_slots f))
+      && covers false h [f_ret f] (q_ret q)
       && forallb (fun st =>
            match st with
            | Mutate x =>
                forallb (fun i => negb (meets (pt h x) (rsp i)) || memn i (s_mut sm)) pos
-               && forallb (fun gv => negb (meets (pt h x) (closure [snd gv]))
-                                     || existsb (fun gi => Nat.eqb (fst gi) (fst gv) && Nat.eqb (snd gi) 0)
-                                                (s_sw sm)) (f_slots f)
+               && forallb (fun k => negb (meets (pt h x) (rslot k))
+                                    || existsb (fun gi => Nat.eqb (fst gi) (fst (nth k (f_slots f) (0, (xH, xH))))
+                                                          && Nat.eqb (snd gi) 0) (s_sw sm))
+                          (positions (f_slots f))
            | GlobalRng => s_rng sm
            | Draw r =>
                (negb (memp (f_grng f) (pt h r)) || s_rng sm)
@@ -331,10 +387,10 @@ Definition summary_ok (S : summaries) (h : hints) (f : func) (sm : summary) : bo
                                  || existsb (fun gi => Nat.eqb (fst gi) g && Nat.eqb (snd gi) i) (s_sr sm)) pos
            | _ => true
            end) P
-      && forallb (fun i => negb (meets ret_reach (rs i)) || memn i (s_ret sm)) pos
+      && forallb (fun i => negb (meets (q_ret q) (rs i)) || memn i (s_ret sm)) pos
       && forallb (fun i => forallb (fun j =>
-             Nat.eqb i j
-             || negb (meets (flat_map (cont h) (nth i (f_formals f) [])) (nth j (f_formals f) []))
+             Nat.eqb (Nat.div2 i) (Nat.div2 j)
+             || negb (meets (rs i ++ flat_map (cont h) (rs i)) (nth j (f_formals f) []))
              || existsb (fun ij => Nat.eqb (fst ij) i && Nat.eqb (snd ij) j) (s_lnk sm)) pos) pos
   end.
 
@@ -348,6 +404,7 @@ Record entry := mkEntry {
   e_fun : func;
   e_hints : hints;
   e_hints_sum : hints;
+  e_reach : reachsets;
   e_sum : summary }.
 
 Definition summaries_of (prog : list entry) : summaries :=
@@ -358,7 +415,8 @@ Definition check_entry (pol : policy) (S : summaries) (e : entry) : bool :=
 
 (** state slots written anywhere in a list of functions (used to validate read-only lists) *)
 Definition written_slots (S : summaries) (prog : list entry) : list sname :=
-  flat_map (fun e => match prims S (f_body (e_fun e)) with
+  flat_map (fun e => map fst (s_sw (e_sum e)) ++
+                     match prims S (f_body (e_fun e)) with
                      | None => []
                      | Some P => flat_map (fun st => match st with StateWrite g _ => [g] | _ => [] end) P
                      end) prog.
